@@ -42,7 +42,7 @@ fn compare(
 
 fn random_lists(ctx: &mut Ctx) {
     let sub = "rand";
-    let cases = ctx.n(40_000, 600_000);
+    let cases = ctx.n(40_000, 3_000_000);
     let resdefs = standard_resources();
     let res = ResModel { defs: &resdefs };
     for idx in 0..cases {
@@ -256,7 +256,7 @@ const HOST_LINES: &[&str] = &[
 
 fn hosts_lists(ctx: &mut Ctx) {
     let sub = "hosts";
-    let cases = ctx.n(2_000, 40_000);
+    let cases = ctx.n(2_000, 200_000);
     let resdefs = standard_resources();
     let res = ResModel { defs: &resdefs };
     let opts = ParseOptions {
